@@ -149,7 +149,7 @@ TEXT = ['la', 'word with space', 'a,b', 'qu"ote', '"quoted"', 'ñandú', '漢', 
 LOOKALIKE = ['=foo', '=c', '.foo', '.ñ', '*clefG2x', '*clefG6', '*notatandem', '*r', '=1zz']
 BAD = {
     'unknown-character': ['4c€', '€', '4c\x01'],
-    'wrong-order': ['c4', '#4c'],
+    'wrong-order': ['c4', '#4c', '4r^', '16rx 16cc', '"h4d'],
     'truncated': ['4', '8.', '*clef', '*k[', '*M4/', '=:', '*xywh-01:10,20,30', '*xywh-01', '*MM', '*staff', '*>[A', '4c 4'],
     'trailing': ['4cU', '4c%', '=1zz', '*clefG2x', '4c 4eU', '.x'],
 }
